@@ -539,6 +539,24 @@ class Interp:
         if isinstance(fn, SrcClass):
             return self.instantiate(fn, args, kwargs)
         if isinstance(fn, ModelMethod):
+            if isinstance(fn.obj, PyChoice):
+                # distribute the method call over the alternatives, each under its own guard
+                res = UNSET
+                for g, alt in reversed(fn.obj.alts):
+                    g = simp_bool(g)
+                    if g is False:
+                        continue
+                    if g is not True:
+                        self.guards.append(g)
+                    try:
+                        r = self.call(self.getattr(alt, fn.name), list(args), dict(kwargs))
+                    finally:
+                        if g is not True:
+                            self.guards.pop()
+                    res = r if res is UNSET else ite(g, r, res)
+                if res is UNSET:
+                    raise CannotEncode('method call on an empty choice')
+                return res
             return self.models.call_method(fn.obj, fn.name, args, kwargs)
         return self.models.call(fn, args, kwargs)
 
@@ -922,6 +940,8 @@ class Interp:
     def getattr(self, obj, attr):
         if isinstance(obj, MaybeNone):
             raise CannotEncode('attribute of Optional value')
+        if isinstance(obj, PyChoice):
+            return ModelMethod(obj, attr)
         if isinstance(obj, Instance):
             if attr in obj.fields:
                 v = obj.fields[attr]
@@ -1453,6 +1473,15 @@ class Interp:
     # ---------------------------------------------------------------- subscripts
 
     def load_subscript(self, obj, idx, node):
+        if isinstance(obj, PyChoice):
+            res = UNSET
+            for g, alt in reversed(obj.alts):
+                g = simp_bool(g)
+                if g is False:
+                    continue
+                r = self.load_subscript(alt, idx, node)
+                res = r if res is UNSET else ite(g, r, res)
+            return res
         if isinstance(obj, SymSeq):
             return self.models.seq_getitem(obj, idx, c_context=self.is_memview_expr(node.value))
         if isinstance(obj, Ref):
